@@ -17,7 +17,13 @@ LOCALES = {
     "SV": ([["pref", "Language", "sv"], ["pref", "DecimalSeparator", "Auto"]], ",", ["."]),
     "CH": ([["pref", "Language", "de-ch"], ["pref", "DecimalSeparator", "Auto"]], ",", [".", "'"]),
 }
-LOCALE_BLOCKS = {"US": ",   ", "EU": ".   ", "SV": ".   ", "CH": ".   '"}
+# two locales set through the separator preferences directly; each differs from US in exactly one of the two preferences
+LOCALES["USb"] = (LOCALES["US"][0] + [["pref", "BlockSeparators", ",   ٬"]], ".", ["٬"])
+LOCALES["USd"] = (LOCALES["US"][0] + [["pref", "DecimalSeparators", ".٫"]], "٫", [","])
+_SP = "   "
+LOCALE_BLOCKS = {"US": "," + _SP, "EU": "." + _SP, "SV": "." + _SP, "CH": "." + _SP + "'", "USb": "," + _SP + "٬", "USd": "," + _SP}
+# locale histories: the separators in force must be those of the *current* preferences, whatever was used before
+HISTORIES = [("US", "USb"), ("US", "USd"), ("USb", "US"), ("USd", "USb"), ("EU", "CH"), ("CH", "EU"), ("US", "EU"), ("EU", "US"), ("SV", "US"), ("US", "CH")]
 
 
 def numbers(dmark, bsep, tier):
@@ -234,6 +240,34 @@ def work(item):
     return viol, counts, nontriv
 
 
+def work_history(item):
+    """Session 'A, one expression, then B' must give exactly what a fresh session under B gives."""
+    a, b_, nums = item
+    mc = mcx.worker_mc()
+    prefs_a, dmark_a, bseps_a = LOCALES[a]
+    prefs_b, dmark_b, bseps_b = LOCALES[b_]
+    base = [["rules_dir", mcx.RULES], ["pref", "TTS", "none"], ["pref", "BrailleCode", "UEB"]]
+    probe = terms.doc(row(mn("1"), mo(bseps_a[0]), mn("234"), mo(dmark_a), mn("5"), mo("+"), mi("a")))
+    docs = []
+    for parts in nums:
+        for cname in ("a+N", "x^N", "f(mrowN)"):
+            for kinds, toks in split_variants(parts):
+                docs.append((parts, cname, terms.doc(CONTEXTS[cname](toks))))
+    cases = [[["mathml", d], ["speech"], ["braille", ""]] for _, _, d in docs]
+    _, fresh = mc.run_cases(base + prefs_b, cases)
+    _, hist = mc.run_cases(base + prefs_a + [["mathml", probe], ["speech"]] + prefs_b, cases)
+    viol, nontriv = [], []
+    for (parts, cname, d), f, h in zip(docs, fresh, hist):
+        nontriv.append(hash((a, b_, d)))
+        f, h = norm_ids(f), norm_ids(h)
+        if [x[:2] for x in f] != [x[:2] for x in h]:
+            which = next(n for n, x, y in zip(("canonical MathML", "speech", "braille"), f, h) if x[:2] != y[:2])
+            viol.append((f"C16|history|{a}->{b_}|{which.split()[0]}-differs",
+                         f"after a session under {a}, switching to {b_}: {' '.join(parts)} in {cname} gives a different {which} than in a fresh {b_} session",
+                         {"kind": "hist", "a": a, "b": b_, "parts": parts}))
+    return viol, {"evaluations": len(docs), "history_cases": len(docs)}, nontriv
+
+
 def cls(p, dmark):
     if p.isdigit():
         return f"d{len(p)}"
@@ -261,7 +295,9 @@ def confirm(replay, verbose=False):
     old = mcx._worker_mc
     mcx._worker_mc = mc
     try:
-        if replay["kind"] == "pos":
+        if replay["kind"] == "hist":
+            v, _, _ = work_history((replay["a"], replay["b"], [replay["parts"]]))
+        elif replay["kind"] == "pos":
             v, _, _ = work((replay["locale"], [replay["parts"]], [], replay.get("tier", "quick")))
         else:
             v, _, _ = work((replay["locale"], [], [replay["parts"]], replay.get("tier", "quick")))
@@ -274,10 +310,18 @@ def confirm(replay, verbose=False):
     return {k for k, _, _ in v}
 
 
+def _dispatch(job):
+    if job[0] == "H":
+        return work_history(job[1:])
+    return work(job)
+
+
 def main(tier):
     run = Run("C16", tier, "exploration")
     jobs = []
     for loc, (prefs, dmark, bseps) in LOCALES.items():
+        if loc in ("USb", "USd"):
+            continue        # directly-set separator sets take part in the locale histories only
         for bsep in bseps + ([NBSP] if tier == "thorough" else []):
             nums = numbers(dmark, bsep, tier)
             for i in range(0, len(nums), 6):
@@ -298,7 +342,15 @@ def main(tier):
         return 2
     run.sample({"locale": "US", "number": "1,234.5", "split": "<mn>1</mn><mo>,</mo><mn>234</mn><mtext>.</mtext><mn>5</mn>", "context": "x^N"})
     run.sample({"locale": "EU", "near-miss": ["1", ".", "23"], "context": "a+N"})
-    for viol, counts, nontriv in mcx.pmap(work, jobs):
+    for a, b_ in HISTORIES:
+        prefs, dmark, bseps = LOCALES[b_]
+        nums = numbers(dmark, bseps[-1], tier)
+        nums = [p for p in nums if p[-1] != dmark]
+        if tier == "quick":
+            nums = nums[::3]
+        for i in range(0, len(nums), 8):
+            jobs.append(("H", a, b_, nums[i:i + 8]))
+    for viol, counts, nontriv in mcx.pmap(_dispatch, jobs):
         run.merge_violations(viol)
         run.merge_counts(counts)
         for h in nontriv:
@@ -307,7 +359,7 @@ def main(tier):
         rule="numbers = {1,2,3-digit lead} x {0..3 groups of 3} x {no fraction, trailing mark, fraction of 1..4 (thorough: 5) digits} + "
              "leading-mark decimals; every separator a token of its own, each as <mo> or <mtext> (2^k spellings); 11 contexts; locales "
              "US, EU(DecimalSeparator=','), SV(Language=sv), CH(de-ch, both . and ' as group mark; thorough: also no-break space groups); "
-             "25 near-miss sequences x 5 contexts x {mo,mtext}. distinct_nontrivial = distinct (locale, number, context, spelling) cases compared",
+             "25 near-miss sequences x 5 contexts x {mo,mtext}; 10 locale histories (session under A, one expression, switch to B: must equal a fresh B session). distinct_nontrivial = distinct (locale, number, context, spelling) cases compared",
         assumptions=["spellings where a separator is glued to a neighbouring <mn> are outside the space (documented: such an <mn> is taken as deliberately tokenised)",
                      "digit-per-<mn> spellings are not 'broken at separators' and are only in the negative family"],
         confirm=confirm)
